@@ -1,6 +1,6 @@
 (* C15 — property theorems only: each restates the full statement and is closed by the lemma proved in Proofs/. *)
 From Coq Require Import ZArith List Bool.
-From NPS Require Import ListAux PySlice NumpySem Scatter BuildIdx XorBroadcast View Index Assign Reduce Scan RaOps Heap Hash HashRun BitArr RLE RLEOps RLE2d DataClass RowsSpec AssignSpec MapSpec Denote RLEIndex GetSlice StartEnd.
+From NPS Require Import ListAux PySlice NumpySem Scatter BuildIdx XorBroadcast View Index Assign Reduce Scan RaOps Heap Hash HashRun BitArr RLE RLEOps RLE2d DataClass RowsSpec AssignSpec MapSpec Denote RLEIndex GetSlice StartEnd StepProof StepNeg.
 Import ListNotations.
 Open Scope Z_scope.
 
@@ -30,6 +30,18 @@ Theorem C15_get_slice_correct :
 Proof. exact get_slice_correct. Qed.
 Print Assumptions C15_get_slice_correct.
 
+Theorem C15_start_to_end_decode :
+  forall (A : Type) (ev : list Z) (vs : list A) (e0 s e : Z),
+       length ev = length vs ->
+       strictly_increasing (e0 :: ev) ->
+       e0 <= s ->
+       s < e ->
+       e <= last (e0 :: ev) 0 ->
+       decode A (start_to_end A (e0 :: ev, vs) s e) =
+       ztake (e - s) (zdrop (s - e0) (decode A (e0 :: ev, vs))).
+Proof. exact start_to_end_decode. Qed.
+Print Assumptions C15_start_to_end_decode.
+
 Theorem C15_start_to_end_shape :
   forall (A : Type) (ev : list Z) (vs : list A) (e0 s e : Z),
        length ev = length vs ->
@@ -37,3 +49,29 @@ Theorem C15_start_to_end_shape :
        e0 <= s -> s < e -> e <= last (e0 :: ev) 0 -> shape_ok A (start_to_end A (e0 :: ev, vs) s e) (e - s).
 Proof. exact start_to_end_shape. Qed.
 Print Assumptions C15_start_to_end_shape.
+
+Theorem C15_step_subset_pos :
+  forall (A : Type) (d : A) (eqb : A -> A -> bool),
+       (forall x y : A, eqb x y = true -> x = y) ->
+       forall k : Z,
+       1 <= k ->
+       forall (ls : list Z) (vs : list A),
+       BinaryProof.canon A ls vs ->
+       decode A (step_subset A eqb (BinaryProof.evs ls, vs) k) =
+       map (fun q : Z => BinaryProof.dense A d vs ls (q * k)) (ap 0 (cdiv k (zsum ls)) 1) /\
+       CanonProof.no_adj A eqb (snd (step_subset A eqb (BinaryProof.evs ls, vs) k)).
+Proof. exact step_subset_pos. Qed.
+Print Assumptions C15_step_subset_pos.
+
+Theorem C15_step_subset_neg :
+  forall (A : Type) (d : A) (eqb : A -> A -> bool),
+       (forall x y : A, eqb x y = true -> x = y) ->
+       forall (ls : list Z) (vs : list A),
+       BinaryProof.canon A ls vs ->
+       ls <> [] ->
+       forall k : Z,
+       1 <= k ->
+       decode A (step_subset A eqb (BinaryProof.evs ls, vs) (- k)) =
+       map (fun q : Z => nth (Z.to_nat (q * k)) (rev (spec_broadcast A vs ls)) d) (ap 0 (cdiv k (zsum ls)) 1).
+Proof. exact step_subset_neg. Qed.
+Print Assumptions C15_step_subset_neg.
